@@ -665,7 +665,7 @@ def run(ctx):
     for unit, start, end, case in itertools.product(('rows', 'range', 'groups'), START, END, (str.lower, str.upper, str.title)):
         text = f'{case(unit)} BETWEEN {case(start)} AND {case(end)}'
         fn_ = Obj('Function', op='sum', args=[], alias=None, parentheses=False)
-        node_ = Obj('WindowFunction', function=fn_, partition=None, order_by=[Obj('OrderBy')], modifier=text, alias=None, parentheses=False)
+        node_ = Obj('WindowFunction', function=fn_, partition=None, order_by=[Obj('OrderBy', field=Obj('Identifier', parts=['o'], alias=None, parentheses=False), direction='default', nulls='default')], modifier=text, alias=None, parentheses=False)
         stubs = sa_stubs()
         stubs.update({'self.get_alias': lambda it, x: x, 'self.to_order_by': lambda it, o: ['<order>'], 'self.to_expression': lambda it, n_: Elem('function', 'sum'),
                       'sa.over': lambda it, f, *a, **k: Elem('over', {kk: vv for kk, vv in k.items() if vv is not None}, [f])})
